@@ -415,7 +415,7 @@ class ReferenceEllipsoid:
         e2 = self.first_eccentricity_squared
         es = np.sqrt(self.second_eccentricity_squared)
         if es == 0:
-            return 0.0
+            return -m/3     # Limit for a sphere
         q0 = 0.5*((1+3/es**2)*np.arctan(es) - 3/es)
         return e2*(1-2*m*es/(15*q0))/3
 
@@ -452,7 +452,7 @@ class ReferenceEllipsoid:
         """
         es = np.sqrt(self.second_eccentricity_squared)
         if es == 0:
-            return self.gm
+            return self.gm/self.b + self.w**2*self.a**2/3   # Limit for a sphere
         return self.gm*np.arctan(es)/self.linear_eccentricity + self.w**2*self.a**2/3
 
     @property
@@ -481,7 +481,7 @@ class ReferenceEllipsoid:
         m = self.normal_gravity_constant
         es = np.sqrt(self.second_eccentricity_squared)
         if es == 0:
-            return m
+            return self.gm * (1 - 1.5*m)/(self.a*self.b)    # Limit for a sphere: e'q0'/q0 -> 3
         q0 = 0.5*((1 + 3/es**2)*np.arctan(es) - 3/es)
         q0s = 3*((1 + 1/es**2)*(1 - np.arctan(es)/es)) - 1
         return self.gm * (1 - m - m*es*q0s/(6*q0))/(self.a*self.b)
@@ -512,7 +512,7 @@ class ReferenceEllipsoid:
         m = self.normal_gravity_constant
         es = np.sqrt(self.second_eccentricity_squared)
         if es == 0:
-            return m
+            return self.gm * (1 + m)/self.a**2              # Limit for a sphere: e'q0'/q0 -> 3
         q0 = 0.5*((1 + 3/es**2)*np.arctan(es) - 3/es)
         q0s = 3*((1 + 1/es**2)*(1 - np.arctan(es)/es)) - 1
         return self.gm * (1 + m*es*q0s/(3*q0))/self.a**2
